@@ -218,7 +218,7 @@ class Gen:
             d = rng.randrange(max(lo, -3), min(hi, 200)) if dflt else 0
             return ('int', n, signed, fe, d)
         if kind == 'dconst':
-            n = rng.choice([0, 1, 2, 3, 4])
+            n = rng.choice([0, 1, 2, 3, 4, 0, 1, 2, 3, 4, 11, 22])     # 11, 22: struct codes of several (equal) digits
             return ('dsized', ('lit', n), 'const', bytes(rng.randrange(256) for _ in range(n)) if dflt else b'')
         if kind == 'dvar':
             e = self.int_expr(ints)
